@@ -24,6 +24,35 @@ claimed = {
         "Proved for all seeds, customizers, read sizes and store points, no bound.",
    note=TRUSTED + " x/crypto/chacha20 (incl. its assembly) is RFC 8439: assumed contract in contracts/trusted/chacha20.spec. Use beyond 2^38 bytes is outside the contract.",
    design="§5 C14"),
+ "C13": dict(
+   text="Package hash is verified in the purego build configuration (real code selected by the purego tag: xor_generic.go): the SP 800-185 encoders "
+        "leftEncode/rightEncode/encodeString/bytepad are proved EQUAL to left_encode/right_encode/encode_string/bytepad byte for byte for every 64-bit value and "
+        "every input length (spec functions bebyte/bytelen, with the threshold lemmas proved in the same run); NewKMAC_128 builds bytepad(encode_string(K),168) "
+        "over cSHAKE128('KMAC',S) and rejects short keys / negative sizes; ComputeHash is proved to be cSHAKE-read(initBlock || x || right_encode(8L)) on a clone "
+        "(the shared state is untouched), SumHash/Reset likewise, over an assumed contract of x/crypto cSHAKE; the Keccak sponge's xorIn/copyOut are proved "
+        "lane-exact (little-endian), and the buffer logic (nil sentinel, fill level == (old+len) mod rate, buffer never left full, Reset clears all 25 lanes, padding positions in range) "
+        "holds for every length and every buffer state. NOT decided by this check (stated in evidence): that the absorbed state equals the FIPS 202 sponge function of the message (only the buffer/lanes bookkeeping is), SHA-2 wrappers, keccakF1600.",
+   note=TRUSTED + " keccakF1600 (assembly or Go) and x/crypto cSHAKE are assumed; in the default build xorIn/copyOut/asBytes use unsafe casts and are assumed to satisfy the contracts proved for their purego variants.",
+   design="§5 C13"),
+ "C10": dict(
+   text="Typestate contracts for plain Feldman VSS and Feldman-VSS-Qual (every method and handler) and for Joint-Feldman's Running/ForceDisqualify: exact accept/reject table with the exact error class "
+        "(errors.As classes tracked through fmt.Errorf %w), `nothing assigned` on every rejected call (all heaps, incl. the processor's ghost counters, unchanged for objects existing at entry), "
+        "NextTimeout accepted exactly twice, End only after both timeouts and always leaving the instance not running, handlers never change the phase; proved as an induction over call histories via the representation invariants "
+        "(vssInv / qualInv incl. map-ownership of complaint objects). Joint-Feldman's looping methods (Start/NextTimeout/End/Handle*) are under contract but their per-instance loop obligations do not discharge within budget yet: NOT claimed.",
+   note=TRUSTED + " Error-class facts of the typed error constructors are assumed (errors.As semantics). Joint-Feldman loops not covered. C glue contracts are assumed at the cgo call sites.",
+   design="§5 C10"),
+ "C08": dict(
+   text="Per-instance guarantee/assumption contracts of the DKG: an honest instance broadcasts at most one complaint per dealer (precondition `no own complaint yet` at every call of buildAndBroadcastComplaint) and answers a complaint at most once; "
+        "a missing/late/wrong-size/undecodable verification vector, more than t complaints, a wrong-size answer or an unanswered complaint at End disqualify the dealer (postconditions incl. a ghost `visited` set for the map iteration in End); "
+        "plain VSS: validKey implies a valid vector and share, End returns keys only if validKey. Composition across participants (same broadcast view) is a paper step.",
+   note=TRUSTED + " Channel assumptions and assume-guarantee composition are not machine-checked; C glue contracts (G2_check_log, G2_vector_read_bytes...) are assumed at the cgo call sites; Joint-Feldman loops not covered.",
+   design="§5 C08"),
+ "C09": dict(
+   text="Absence of Go run-time panics (index/slice bounds, nil dereference, nil map write, failed type assertion, division by zero, negative make, explicit panic) and validity of every pointer/length pair handed to C, "
+        "for all arguments, for the functions under contract tagged C09: package random (all of rand.go, chacha20.go), package hash (purego configuration), plain Feldman VSS, Feldman-VSS-Qual, Joint-Feldman ForceDisqualify, the scalar/vector (de)serialization wrappers. "
+        "Exported functions outside this list (BLS sign/verify/aggregation, threshold signatures, ECDSA, Joint-Feldman loops, enum String methods) are not yet covered by this check.",
+   note=TRUSTED + " Termination is not proved. C function bodies are not yet verified (their `valid` preconditions are proved at the Go call sites).",
+   design="§5 C09"),
 }
 
 na_reason = {p: "verifier support for this property is not built yet (engine under construction); not claimed rather than checked with another technique" for p in props}
